@@ -10,6 +10,8 @@ cd /verif
 for d in seeded/${1:-}*/; do
   id=$(basename $d)
   prop=$(python3 -c "import json,os; d='$d'; f=d+'/meta.json' if os.path.exists(d+'/meta.json') else d+'/meta.agent.json'; m=json.load(open(f)); print(m.get('regress_with', m['property']))")
+  retired=$(python3 -c "import json,os; d='$d'; f=d+'/meta.json' if os.path.exists(d+'/meta.json') else d+'/meta.agent.json'; m=json.load(open(f)); print(m.get('retired', ''))")
+  if [ -n "$retired" ]; then echo "RETIRED   $id: $retired"; continue; fi
   pf=/verif/$d/patch.diff
   if ! git -C /repo apply --check $pf 2>/dev/null; then
     # the code it touched was repaired since: the same change ported to HEAD, when there is one
@@ -17,9 +19,14 @@ for d in seeded/${1:-}*/; do
     if [ ! -f $pf ] || ! git -C /repo apply --check $pf 2>/dev/null; then echo "NOAPPLY   $id"; continue; fi
   fi
   git -C /repo apply $pf
-  out=$(./check $prop --tier quick 2>&1 | grep -E "^VIOLATION")
+  full=$(./check $prop --tier quick 2>&1)
+  out=$(echo "$full" | grep -E "^VIOLATION")
   git -C /repo checkout -- .
-  if [ -z "$out" ]; then echo "MISSED    $id ($prop)";
+  if ! echo "$full" | grep -qE "^$prop quick:"; then
+    # the check did not run to its summary line: not a verdict on the change
+    mkdir -p out/reseed-errors; echo "$full" > out/reseed-errors/$id.log
+    echo "ERROR     $id ($prop): the check did not complete, see out/reseed-errors/$id.log"
+  elif [ -z "$out" ]; then echo "MISSED    $id ($prop)";
   elif echo "$out" | grep -qv "no-failing-input-found"; then echo "CAUGHT    $id ($prop)";
   else echo "CAUGHT-NFI $id ($prop)"; fi
 done
